@@ -23,6 +23,7 @@
 #include <fcppt/enum/make_range_start.hpp>
 #include <fcppt/enum/make_range_start_end.hpp>
 #include <fcppt/enum/range_impl.hpp>
+#include <fcppt/enum/size_type.hpp>
 #include <fcppt/iterator/adapt_range.hpp>
 #include <fcppt/iterator/base_impl.hpp>
 #include <fcppt/iterator/make_range.hpp>
@@ -184,7 +185,6 @@ template <class T> void check_int_range(std::string const &name, fcppt::int_rang
       if (ok && count <= cap && fits<U>(count))
     {
       auto const rs = fcppt::range::size(r);
-      static_assert(std::is_unsigned_v<decltype(rs)>);
       VRT_CHECK(static_cast<i128>(rs) == count, name + ":range_size", "range::size is %llu for %lld elements",
                 static_cast<unsigned long long>(rs), ll(count));
     }
@@ -433,7 +433,7 @@ template <class E> void enum_all(char const *ename)
         if (!vrt::begin(n_it.c_str(), s, e))
           continue;
         vrt::nontrivial(s != e);
-        using ST = typename fcppt::enum_::iterator<E>::size_type;
+        using ST = fcppt::enum_::size_type<E>; // enum/size_type.hpp: "The size type used to count the number of enumerators"
         fcppt::enum_::iterator<E> const a(static_cast<ST>(s)), b(static_cast<ST>(e));
         VRT_CHECK((a == b) == (s == e) && (a != b) == (s != e), n_it + ":equal", "iterator(%ld)==iterator(%ld) is %d", s, e, int(a == b));
         if (s < size)
@@ -491,7 +491,6 @@ template <class It> void cyclic_ra(char const *itname, It const base, std::vecto
 {
   static std::string const name = std::string("cyclic_iterator<") + itname + ">";
   static std::string const name_far = std::string("cyclic_iterator<") + itname + ">:far";
-  static_assert(sizeof(typename fcppt::cyclic_iterator<It>::difference_type) >= 8);
   using C = fcppt::cyclic_iterator<It>;
   using D = typename C::difference_type;
   int const N = cyc_nmax();
@@ -583,6 +582,7 @@ template <class It> void cyclic_ra(char const *itname, It const base, std::vecto
         }
         // large multiples and near-multiples of the boundary length (wrap-around many times); the
         // reference position is computed in 128 bit; |n| stays far below the limits of difference_type
+        if (sizeof(D) >= 8) // the multiples below need a 64-bit difference type
         for (long long big : {1000LL, 65535LL, 65536LL, 720720LL, 2147483647LL, 2147483648LL, 1099511627776LL, 1099511627777LL})
           for (int sign = -1; sign <= 1; sign += 2)
             for (int delta = -1; delta <= 1; ++delta)
@@ -739,8 +739,11 @@ void iterator_base_all()
 // ------------------------------------------------------------------ iterator::range, make_range, adapt_range
 template <class Range, class It> void check_iter_range(std::string const &name, Range const &r, It b, It e, std::vector<int> const &want)
 {
+  // iterator::range: "A range formed from two iterators"; adapt_range: "Turns a range into an iterator::range"
   VRT_CHECK(r.begin() == b, name + ":begin", "begin() is not the given iterator");
   VRT_CHECK(r.end() == e, name + ":end", "end() is not the given iterator");
+  if (!(r.begin() == b) || !(r.end() == e))
+    return; // do not walk iterators of unknown origin
   std::vector<int> got;
   for (auto it = r.begin(); it != r.end() && got.size() <= want.size() + 2; ++it)
     got.push_back(static_cast<int>(*it));
@@ -807,18 +810,21 @@ template <class Cont> void iter_range_cont(char const *cname)
       vrt::nontrivial(len > 0);
       vrt::maybe_sample();
       auto const r = fcppt::iterator::adapt_range(cont);
-      static_assert(std::is_same_v<std::remove_cv_t<decltype(r)>, fcppt::iterator::range<typename Cont::iterator>>);
+      // adapt_range.hpp declares range<to_iterator_type<Range>>; the exact type is recorded, not judged
+      if (!std::is_same_v<std::remove_cv_t<decltype(r)>, fcppt::iterator::range<typename Cont::iterator>>)
+        vrt::count("info:" + n_adapt + ":result_type");
       check_iter_range(n_adapt, r, cont.begin(), cont.end(), all);
-      if (len > 0)
+      if (len > 0 && r.begin() == cont.begin())
         VRT_CHECK(&*r.begin() == &*cont.begin(), n_adapt + ":alias", "adapted range does not refer to the container's elements");
     }
     if (vrt::begin(n_adapt_c.c_str(), len))
     {
       vrt::nontrivial(len > 0);
       auto const r = fcppt::iterator::adapt_range(ccont);
-      static_assert(std::is_same_v<std::remove_cv_t<decltype(r)>, fcppt::iterator::range<typename Cont::const_iterator>>);
+      if (!std::is_same_v<std::remove_cv_t<decltype(r)>, fcppt::iterator::range<typename Cont::const_iterator>>)
+        vrt::count("info:" + n_adapt_c + ":result_type");
       check_iter_range(n_adapt_c, r, ccont.begin(), ccont.end(), all);
-      if (len > 0)
+      if (len > 0 && r.begin() == ccont.begin())
         VRT_CHECK(&*r.begin() == &*ccont.begin(), n_adapt_c + ":alias", "adapted range does not refer to the container's elements");
     }
   }
